@@ -25,6 +25,8 @@ import (
 
 type pktWeights struct {
 	send, relay, ackRelay, replay, mutateRecv, mutateAck, ackConflict, commit, update int
+	tss int // traffic with the pure TSS counterparty
+	toggle int // client lifecycle proposals (toggle / upgrade) followed by replays
 	evm int // traffic with and forgeries against the BSC / ETH secured counterparties
 	restart int // genesis export -> import restarts
 	plant int // planted high-sequence packets (commitment injected with the keeper setter)
@@ -151,11 +153,23 @@ func (g *pktGen) setup(variant int) {
 		w.addEvm(w.chains[0], "bsc", bscName)
 		w.addEvm(w.chains[0], "eth", ethName)
 	}
+	if g.wt.tss > 0 {
+		tssName := "tss-net"
+		if pktHasUpper(w.chains[0].name) {
+			tssName = "TSS-Net"
+		}
+		w.addTss(w.chains[0], tssName)
+	}
 	for _, c := range w.chains {
 		var others []string
 		for _, o := range w.chains {
 			if o != c {
 				others = append(others, o.name)
+			}
+		}
+		if c == w.chains[0] {
+			for _, ts := range w.tsss {
+				others = append(others, ts.name)
 			}
 		}
 		if c == w.chains[0] {
@@ -165,6 +179,7 @@ func (g *pktGen) setup(variant int) {
 		}
 		w.register(c, 0, others)
 		w.register(c, 1, others[:1])
+		w.register(c, pktT, others) // the TSS account is a registered relayer for every counterparty
 	}
 	w.commitAll()
 	for _, c := range w.chains {
@@ -263,7 +278,7 @@ func (g *pktGen) maybeCommit(c *pktChain) {
 func (g *pktGen) step() {
 	g.steps++
 	wt := g.wt
-	switch g.pick(wt.send, wt.relay, wt.ackRelay, wt.replay, wt.mutateRecv, wt.mutateAck, wt.ackConflict, wt.commit, wt.update, wt.plant, wt.restart, wt.evm) {
+	switch g.pick(wt.send, wt.relay, wt.ackRelay, wt.replay, wt.mutateRecv, wt.mutateAck, wt.ackConflict, wt.commit, wt.update, wt.plant, wt.restart, wt.evm, wt.tss, wt.toggle) {
 	case 0:
 		g.doSend()
 	case 1:
@@ -293,6 +308,10 @@ func (g *pktGen) step() {
 		g.doRestart()
 	case 11:
 		g.doEvm()
+	case 12:
+		g.doTss()
+	case 13:
+		g.doLifecycle()
 	}
 }
 
@@ -355,6 +374,10 @@ func (g *pktGen) provable(c, of *pktChain) (uint64, bool) {
 	w := g.w
 	w.commit(of)
 	w.commit(of)
+	if c.kind[of.name] == "tss" {
+		// toggled to a TSS client: nothing to update, any non-zero height will do; the proof bytes are ignored
+		return uint64(of.tc.App.LastBlockHeight()), true
+	}
 	if !w.updateClient(c, of.name, 0) {
 		return 0, false
 	}
@@ -409,7 +432,11 @@ func (g *pktGen) doRelay() {
 		signer = 1
 	}
 	height := clienttypes.NewHeight(s.src.revision(), h)
-	out := w.recv(s.dst, s.bz, proof, height, signer, "genuine")
+	tag := "genuine"
+	if s.dst.kind[s.src.name] == "tss" {
+		signer, proof, tag = g.tssSignerProof(s.dst, signer, proof)
+	}
+	out := w.recv(s.dst, s.bz, proof, height, signer, tag)
 	if out.ok {
 		s.recvd = true
 		s.ackBz = out.ackBz
@@ -449,7 +476,11 @@ func (g *pktGen) doAckRelay() {
 	}
 	height := clienttypes.NewHeight(s.dst.revision(), h)
 	signer := g.rng.Intn(3) // acknowledgements need no registered signer
-	out := w.ack(s.src, s.bz, s.ackBz, proof, height, signer, "genuine")
+	tag := "genuine"
+	if s.src.kind[s.dst.name] == "tss" {
+		signer, proof, tag = g.tssSignerProof(s.src, signer, proof)
+	}
+	out := w.ack(s.src, s.bz, s.ackBz, proof, height, signer, tag)
 	if out.ok {
 		s.acked = true
 		g.accAcks = append(g.accAcks, &pktAckRec{chain: s.src, packet: s.bz, ack: s.ackBz, proof: proof, height: height, signer: signer})
@@ -1064,15 +1095,15 @@ func (g *pktGen) doAckConflict() {
 }
 
 func TestC01(t *testing.T) {
-	pktRun(t, "C01", pktWeights{send: 14, relay: 14, ackRelay: 8, replay: 40, commit: 4, update: 4, plant: 4, restart: 3, evm: 6, cbErr: 24})
+	pktRun(t, "C01", pktWeights{send: 14, relay: 14, ackRelay: 8, replay: 40, commit: 4, update: 4, plant: 4, restart: 3, evm: 6, tss: 4, toggle: 3, cbErr: 24})
 }
 
 func TestC05(t *testing.T) {
-	pktRun(t, "C05", pktWeights{send: 16, relay: 16, ackRelay: 14, replay: 4, mutateAck: 8, ackConflict: 34, commit: 4, update: 4, plant: 3, restart: 3, evm: 8, cbErr: 30})
+	pktRun(t, "C05", pktWeights{send: 16, relay: 16, ackRelay: 14, replay: 4, mutateAck: 8, ackConflict: 34, commit: 4, update: 4, plant: 3, restart: 3, evm: 8, tss: 8, toggle: 3, cbErr: 30})
 }
 
 func TestC02(t *testing.T) {
-	pktRun(t, "C02", pktWeights{send: 14, relay: 8, ackRelay: 8, replay: 2, mutateRecv: 32, mutateAck: 28, ackConflict: 2, commit: 3, update: 3, plant: 3, restart: 2, evm: 30, cbErr: 26})
+	pktRun(t, "C02", pktWeights{send: 14, relay: 8, ackRelay: 8, replay: 2, mutateRecv: 32, mutateAck: 28, ackConflict: 2, commit: 3, update: 3, plant: 3, restart: 2, evm: 30, tss: 8, toggle: 2, cbErr: 26})
 }
 
 // pktSwapCase flips the case of the first letter (a name differing only in case).
@@ -1141,7 +1172,11 @@ func (g *pktGen) evmRelayIn(ev *pktEvm) {
 	}
 	proof := ev.states[h].genuine(ev.contract, ep.slot).json()
 	signer := 0
-	out := w.recv(ev.host, ep.bz, proof, g.evmHeight(h), signer, "evm-genuine-"+ev.kind)
+	tag := "evm-genuine-" + ev.kind
+	if ev.host.kind[ev.name] == "tss" {
+		signer, proof, tag = g.tssSignerProof(ev.host, signer, proof)
+	}
+	out := w.recv(ev.host, ep.bz, proof, g.evmHeight(h), signer, tag)
 	if out.ok {
 		ep.recvd = true
 		ep.ackBz = out.ackBz
@@ -1207,7 +1242,11 @@ func (g *pktGen) evmRelayAck(ev *pktEvm) {
 	h := w.evmProvable(ev)
 	proof := ev.states[h].genuine(ev.contract, ep.slot).json()
 	signer := g.rng.Intn(3)
-	out := w.ack(ev.host, ep.bz, ep.ackBz, proof, g.evmHeight(h), signer, "evm-genuine-"+ev.kind)
+	tag := "evm-genuine-" + ev.kind
+	if ev.host.kind[ev.name] == "tss" {
+		signer, proof, tag = g.tssSignerProof(ev.host, signer, proof)
+	}
+	out := w.ack(ev.host, ep.bz, ep.ackBz, proof, g.evmHeight(h), signer, tag)
 	if out.ok {
 		ep.acked = true
 		g.accAcks = append(g.accAcks, &pktAckRec{chain: ev.host, packet: ep.bz, ack: ep.ackBz, proof: proof, height: g.evmHeight(h), signer: signer})
@@ -1525,4 +1564,215 @@ func (g *pktGen) evmForgeAck(ev *pktEvm) {
 	if out.ok && stored {
 		ep.acked = true
 	}
+}
+
+// ---------------------------------------------------------------------------------------------
+// TSS-secured counterparties and client lifecycle
+
+// tssSignerProof: for a message verified by a TSS client choose who signs (mostly the TSS account T, sometimes the given
+// other account) and what the proof field holds (the given bytes, nothing, the public TSS address, random bytes).
+func (g *pktGen) tssSignerProof(c *pktChain, other int, proof []byte) (int, []byte, string) {
+	signer, who := pktT, "tss-signer"
+	if g.rng.Intn(4) == 0 {
+		signer, who = other, "other-signer"
+		if signer == pktT {
+			signer = 0
+		}
+	}
+	switch g.rng.Intn(4) {
+	case 0:
+		return signer, nil, who + "-proof-empty"
+	case 1:
+		return signer, []byte(c.tssAddr()), who + "-proof-tssaddr"
+	case 2:
+		b := make([]byte, 1+g.rng.Intn(40))
+		g.rng.Read(b)
+		return signer, b, who + "-proof-random"
+	}
+	return signer, proof, who + "-proof-kept"
+}
+
+func (g *pktGen) doTss() {
+	w := g.w
+	if len(w.tsss) == 0 {
+		return
+	}
+	ts := w.tsss[g.rng.Intn(len(w.tsss))]
+	c := ts.host
+	h := clienttypes.NewHeight(0, uint64(1+g.rng.Intn(50)))
+	switch x := g.rng.Intn(100); {
+	case x < 45: // a packet from the TSS chain: delivered by T (accepted) or by somebody else (refused), any proof field
+		var pend []*pktEvmPacket
+		for _, ep := range ts.in {
+			if !ep.recvd {
+				pend = append(pend, ep)
+			}
+		}
+		var ep *pktEvmPacket
+		if len(pend) > 0 && g.rng.Intn(2) == 0 {
+			ep = pend[g.rng.Intn(len(pend))]
+		} else {
+			ep = w.tssPacket(ts, ts.inSeq, int64(1+g.rng.Intn(200)))
+			ts.inSeq++
+			ts.in = append(ts.in, ep)
+		}
+		signer, proof, tag := g.tssSignerProof(c, g.rng.Intn(3), nil)
+		out := w.recv(c, ep.bz, proof, h, signer, "tss-"+tag)
+		if out.ok {
+			ep.recvd = true
+			ep.ackBz = out.ackBz
+			g.accRecv = append(g.accRecv, &pktRecvRec{chain: c, packet: ep.bz, proof: proof, height: h, signer: signer, epoch: c.restarts})
+			if g.rng.Intn(2) == 0 {
+				w.recv(c, ep.bz, proof, h, signer, "replay-same-block")
+			}
+		}
+	case x < 65: // a packet to the TSS chain
+		cs := w.callSpec(c, c, "n", func(b []byte) { g.rng.Read(b) })
+		if s := w.send(c, ts.name, int64(1+g.rng.Intn(300)), cs, 0); s != nil {
+			relayer := c.regAddr[c.tssAddr()][ts.name]
+			var ackBz []byte
+			if g.rng.Intn(10) < 7 {
+				ackBz = w.defAckEnc(0, []byte{}, "", relayer, s.p.FeeOption)
+			} else {
+				ackBz = w.defAckEnc(2, []byte{}, "onRecvPackt: binding is not exist", relayer, s.p.FeeOption)
+			}
+			ts.out = append(ts.out, &pktEvmPacket{bz: s.bz, p: s.p, ackBz: ackBz, outward: true})
+			w.r.Count("tss.sendout")
+		}
+	default: // its acknowledgement: from T (accepted) or from somebody else with the proof field empty / = TSS address / random
+		var pend []*pktEvmPacket
+		for _, ep := range ts.out {
+			if !ep.acked {
+				pend = append(pend, ep)
+			}
+		}
+		if len(pend) == 0 {
+			return
+		}
+		ep := pend[g.rng.Intn(len(pend))]
+		signer, proof, tag := g.tssSignerProof(c, g.rng.Intn(3), nil)
+		if g.rng.Intn(3) == 0 {
+			// the attack of the seeded change: not the TSS account, ProofAcked = the public TSS address
+			signer, proof, tag = g.rng.Intn(3), []byte(c.tssAddr()), "other-signer-proof-tssaddr"
+		}
+		ackBz := ep.ackBz
+		if signer != pktT && g.rng.Intn(2) == 0 {
+			// a fabricated outcome
+			ackBz = w.defAckEnc(1, []byte{}, "forged", c.regAddr[c.tssAddr()][ts.name], ep.p.FeeOption)
+		}
+		out := w.ack(c, ep.bz, ackBz, proof, h, signer, "tss-"+tag)
+		if out.ok {
+			ep.acked = true
+			g.accAcks = append(g.accAcks, &pktAckRec{chain: c, packet: ep.bz, ack: ackBz, proof: proof, height: h, signer: signer})
+			if g.rng.Intn(2) == 0 {
+				w.ack(c, ep.bz, ackBz, proof, h, signer, "replay-same-block")
+			}
+		}
+	}
+	g.maybeCommit(c)
+}
+
+// doLifecycle: toggle a client to TSS / back to its native kind, or upgrade it, then replay earlier receives and
+// acknowledgements of that counterparty in the form the NEW client accepts.
+func (g *pktGen) doLifecycle() {
+	w := g.w
+	type cand struct {
+		c    *pktChain
+		name string
+	}
+	var toggled, native []cand
+	for _, c := range w.chains {
+		for name := range c.kind {
+			if c.track[name] == nil && w.evmBy[c.name+"|"+name] == nil {
+				continue // the pure TSS counterparty has no native light client to go back to
+			}
+			if ev := w.evmBy[c.name+"|"+name]; ev != nil && ev.kind == "bsc" {
+				continue // a BSC client can only be initialised / upgraded from a real epoch header with its validator set (C09)
+			}
+			if c.toggled[name] {
+				toggled = append(toggled, cand{c, name})
+			} else {
+				native = append(native, cand{c, name})
+			}
+		}
+	}
+	sortCands := func(l []cand) {
+		sort.Slice(l, func(i, j int) bool { return l[i].c.name+"|"+l[i].name < l[j].c.name+"|"+l[j].name })
+	}
+	sortCands(toggled)
+	sortCands(native)
+	var k cand
+	switch x := g.rng.Intn(100); {
+	case x < 15: // upgrade (same kind) of a random client
+		all := append(append([]cand{}, toggled...), native...)
+		k = all[g.rng.Intn(len(all))]
+		w.upgrade(k.c, k.name, true)
+	case x < 22: // refused proposals: upgrade to another kind, toggle to the same kind
+		all := append(append([]cand{}, toggled...), native...)
+		k = all[g.rng.Intn(len(all))]
+		if g.rng.Intn(2) == 0 {
+			w.upgrade(k.c, k.name, false)
+		} else {
+			w.toggle(k.c, k.name, k.c.kind[k.name] == "tss")
+		}
+	case len(toggled) > 0 && (x < 75 || len(native) == 0): // back to the native light client
+		k = toggled[g.rng.Intn(len(toggled))]
+		if w.toggle(k.c, k.name, false) {
+			k.c.toggled[k.name] = false
+		}
+	default:
+		k = native[g.rng.Intn(len(native))]
+		if w.toggle(k.c, k.name, true) {
+			k.c.toggled[k.name] = true
+		}
+	}
+	g.maybeCommit(k.c)
+	g.replayAfterClientOp(k.c, k.name)
+}
+
+// replayAfterClientOp re-submits receives / acks of counterparty `name` accepted earlier on c, shaped for the client
+// as it is now (TSS: signed by T; light client: fresh genuine proof where the harness can produce one).
+func (g *pktGen) replayAfterClientOp(c *pktChain, name string) {
+	w := g.w
+	n := 0
+	for i := len(g.accRecv) - 1; i >= 0 && n < 3; i-- {
+		rec := g.accRecv[i]
+		var p packettypes.Packet
+		if rec.chain != c || p.ABIDecode(rec.packet) != nil || p.SrcChain != name {
+			continue
+		}
+		n++
+		proof, height, signer := rec.proof, rec.height, rec.signer
+		if c.kind[name] == "tss" {
+			signer = pktT
+			if g.rng.Intn(2) == 0 {
+				proof = nil
+			}
+		} else if of := c.track[name]; of != nil {
+			if h, ok := g.provable(c, of); ok {
+				if pf := of.proofAt(host.PacketCommitmentKey(p.SrcChain, p.DstChain, p.Sequence), h); pf != nil {
+					proof, height, signer = pf, clienttypes.NewHeight(of.revision(), h), 0
+				}
+			}
+		} else if ev := w.evmBy[c.name+"|"+name]; ev != nil {
+			h := w.evmProvable(ev)
+			proof, height, signer = ev.states[h].genuine(ev.contract, pktEvmSlot(host.PacketCommitmentKey(p.SrcChain, p.DstChain, p.Sequence))).json(), g.evmHeight(h), 0
+		}
+		w.recv(c, rec.packet, proof, height, signer, "replay-after-client-op")
+	}
+	n = 0
+	for i := len(g.accAcks) - 1; i >= 0 && n < 2; i-- {
+		a := g.accAcks[i]
+		var p packettypes.Packet
+		if a.chain != c || p.ABIDecode(a.packet) != nil || p.DstChain != name {
+			continue
+		}
+		n++
+		signer := a.signer
+		if c.kind[name] == "tss" {
+			signer = pktT
+		}
+		w.ack(c, a.packet, a.ack, a.proof, a.height, signer, "dup-after-client-op")
+	}
+	g.maybeCommit(c)
 }
